@@ -16,7 +16,7 @@ EXPLANATION = (
     "Prefix::Expression is always Expression::Parentheses, else unreachable!() - holds on every layout path: no context "
     "with which an expression in prefix role reaches the parenthesis gate removes parentheses of any kind. (R-ONCE) no formatter is applied to a node that already came out of a formatter (rebuilt tokens have no source position: the range test and format_field's unreachable!() depend on it). (R-SLICE) no string / slice is indexed with an offset that comes from a caller-supplied Range / usize argument. Decides these clauses, not the behaviour: value-dependent panics (usize "
     "subtraction, unwrap on positions), stack depth and running time are not decided (census reported only)."
-    "Later rounds: (R-ONCE) through iterator items and closure parameters; (R-WASTE) no recursive formatter call has a result that is neither inspected nor returned on some path, beyond the nine trial-layout sites frozen in rules/frozen_waste.json (hoisted formatting is exponential in the nesting depth).")
+    "Later rounds: (R-ONCE) through iterator items and closure parameters; (R-WASTE) no recursive formatter call has a result that is neither inspected nor returned on some path, beyond the ten trial-layout sites frozen in rules/frozen_waste.json (hoisted formatting is exponential in the nesting depth).")
 ASSUMPTIONS = [
     "rustc MIR and Instance::try_resolve are trusted",
     "full_moon only produces AST values its enum definitions (as compiled in the configuration) allow",
@@ -458,3 +458,34 @@ def run(ctx):
     reps.append(rule_slice(ctx, "C07"))
     reps.append(rule_parse_input(ctx, "C07"))
     return reps
+
+
+def rule_print(ctx, prop):
+    """the text handed back is the printed tree: every guarantee about tokens (literals, comments, line endings) is established
+    on the tree, so nothing may rewrite the text after printing"""
+    rep = Report(prop, "R-PRINT", "format_code returns Ok(ast.to_string()) of the tree returned by format_ast: the printed text is not "
+                                  "post-processed (no string operation between printing and returning)")
+    for cfg, prog in ctx.programs.items():
+        f = prog.fn("stylua_lib", "format_code")
+        if not rep.anchor(f is not None, "format_code", cfg):
+            continue
+        oks = [(b, s) for b, si_, s in f.stmts() if s["k"] == "assign" and s["rv"]["k"] == "agg" and s["rv"].get("variant") == "Ok"
+               and s["dst"]["l"] == 0 and not s["dst"].get("p")]
+        if not rep.anchor(len(oks) >= 1, "Ok(..) return in format_code", cfg):
+            continue
+        for b, s in oks:
+            roots = provenance(f, s["rv"]["ops"][0], through=None, into_aggs=False)
+            calls = sorted({r[1] for r in roots if r[0] == "call"})
+            printed = [r for r in roots if r[0] == "call" and re.search(r"ToString>?::to_string$|string::ToString::to_string$", r[1])]
+            ok = len(roots) == 1 and len(printed) == 1
+            if ok:
+                t = f.blocks[printed[0][2]]["term"]
+                src = prov_calls(provenance(f, t["args"][0]))
+                ok = any(re.search(r"(^|::)format_ast$", c) for c in src)
+            rep.inst(f"{f.key} returns the printed tree", {"roots": [c.split("::")[-1] for c in calls]}, cfg, ok=ok)
+            if not ok:
+                rep.violation(f"{f.key} printed-text-post-processed via={','.join(c.split('::<')[0].split('::')[-1] for c in calls) or 'non-call'}",
+                              f"format_code returns a value derived through {[c.split('::')[-1] for c in calls]} instead of the string "
+                              f"printed from format_ast's tree: a rewrite of the printed text cannot tell code from the inside of a "
+                              f"string literal or comment (trailing blanks inside `[[ .. ]]`, line endings, quotes)", f.loc(s["sp"]), cfg)
+    return rep
